@@ -142,6 +142,25 @@ class JobOut(Task):
         LOG.append(("body", self))
 
 
+class JobMark(Task):
+    """A task whose output is one of its own (already sealed and identified) parameter configurations, marked as
+    depending on the task (used by the `marked own parameter` family of C03)."""
+    __xpmid__ = "u.jobmark"
+    x: Param[int] = 0
+    code: Meta[int] = 0
+    leafp: Param[Leaf]
+
+    def task_outputs(self, dep):
+        return dep(self.leafp)
+
+    def execute(self):
+        LOG.append(("body", self))
+
+
+class JobMarkx(JobMark):
+    __xpmid__ = "u.jobmarkx"
+
+
 class PreT(LightweightTask):
     __xpmid__ = "u.pre"
     __post_init__ = _post
